@@ -112,10 +112,31 @@ func runCase(c *vt.Ctx, kt *kernel.Thread, cs Case) *vt.Deviation {
 				}
 			}
 		}
+		if a.Op.K == "RemoveAll" && a.User != "root" {
+			// os.RemoveAll removes a directory that is not empty by opening its PARENT for reading
+			// and working from that descriptor: without read permission on the parent it gives up
+			// with EACCES although every unlink it needs would be allowed (rm -r succeeds). That is
+			// how package os walks, not a decision of the kernel about the caller's rights, and the
+			// property is about the latter: such calls are not issued.
+			tgt := w.Snap.Lookup(fsx.Physical(w.Snap, w.Cwd, a.Op.P, false))
+			par := w.Snap.Lookup(fsx.Physical(w.Snap, w.Cwd, parentOf(a.Op.P), true))
+			if tgt != nil && tgt.Type == "d" && par != nil && !mayRead(par, ids[a.User]) && hasChildren(w.Snap, tgt.Path) {
+				c.Excluded("os.RemoveAll-needs-readable-parent")
+				continue
+			}
+		}
 		c.Eval(1)
 		w.T.Umask(a.Umask)
 		_ = w.V.SetUMask(os.FileMode(a.Umask))
-		_, ok, dev := w.StepAs("C03", a.Op, ids[a.User])
+		oe, ok, dev := w.StepAs("C03", a.Op, ids[a.User])
+		if dev != nil && a.Op.K == "RemoveAll" && dev.Fields["expected"] == "tree" && ok.Err != "ok" && oe.Err == ok.Err {
+			// Both sides refused with the same errno; what a refused RemoveAll had already removed is
+			// not a permission decision: os.RemoveAll gives up early when it cannot open the PARENT
+			// directory for reading (an artefact of how it walks), MemFS empties what it may and fails
+			// on the entry it may not unlink, as rm -r does. The two trees differ from here on.
+			c.Label("removeall-refused-partial-effects-not-compared")
+			return nil
+		}
 		if dev != nil {
 			// signature: the call, the actor's class on each node, what was expected
 			for _, n := range cs.Nodes {
@@ -130,9 +151,36 @@ func runCase(c *vt.Ctx, kt *kernel.Thread, cs Case) *vt.Deviation {
 			dev.Detail += fmt.Sprintf(" [as %s, nodes %+v]", a.User, cs.Nodes)
 			return dev
 		}
-		_ = ok
+		_, _ = oe, ok
 	}
 	return nil
+}
+
+func parentOf(p string) string {
+	i := strings.LastIndex(p, "/")
+	if i <= 0 {
+		return "/"
+	}
+	return p[:i]
+}
+
+func mayRead(r *fsx.Rec, id world.Ident) bool {
+	switch {
+	case r.Uid == id.Uid:
+		return r.Perm&0o400 != 0
+	case r.Gid == id.Gid:
+		return r.Perm&0o040 != 0
+	}
+	return r.Perm&0o004 != 0
+}
+
+func hasChildren(s fsx.Snap, dir string) bool {
+	for _, r := range s {
+		if strings.HasPrefix(r.Path, dir+"/") {
+			return true
+		}
+	}
+	return false
 }
 
 func special(ns []Node) string {
@@ -190,7 +238,13 @@ func calls() []fsx.Op {
 		{K: "Remove", P: leaf}, {K: "Remove", P: d2}, {K: "RemoveAll", P: leaf},
 		{K: "Rename", P: leaf, P2: d2 + "/g"}, {K: "Rename", P: leaf, P2: e1 + "/g"}, {K: "Rename", P: d2, P2: e1 + "/moved"},
 		{K: "Link", P: leaf, P2: e1 + "/hl"}, {K: "Link", P: leaf, P2: d2 + "/hl"}, {K: "Symlink", P: "f", P2: d2 + "/sl"},
-		{K: "Truncate", P: leaf, Size: 1}, {K: "Chmod", P: leaf, Perm: 0o600}, {K: "Chmod", P: d2, Perm: 0o700}, {K: "Chtimes", P: leaf, MT: 1000000000},
+		// the file holds 4 bytes: shorter, empty, the same size (nothing to change is still a write), longer
+		{K: "Truncate", P: leaf, Size: 1}, {K: "Truncate", P: leaf, Size: 0}, {K: "Truncate", P: leaf, Size: 4}, {K: "Truncate", P: leaf, Size: 9},
+		// a directory that is not empty: RemoveAll must list it (read), empty it (write, search) and unlink it from its parent
+		{K: "RemoveAll", P: d2}, {K: "RemoveAll", P: d1}, {K: "Remove", P: e1}, {K: "RemoveAll", P: e1},
+		{K: "Open", P: d2, Flag: os.O_RDONLY, H: 0}, {K: "ReadDir", P: d1}, {K: "Chdir", P: d1}, {K: "Stat", P: d2}, {K: "WalkDir", P: d1},
+		{K: "Rename", P: leaf, P2: e1 + "/g"}, {K: "Rename", P: e1, P2: d2 + "/e"}, {K: "Mkdir", P: e1 + "/sub", Perm: 0o755},
+		{K: "Chmod", P: leaf, Perm: 0o600}, {K: "Chmod", P: d2, Perm: 0o700}, {K: "Chtimes", P: leaf, MT: 1000000000},
 		{K: "Chown", P: leaf, Uid: -1, Gid: -1}, {K: "Chown", P: leaf, Uid: 1001, Gid: 1001}, {K: "Chown", P: leaf, Uid: 1003, Gid: -1}, {K: "Lchown", P: leaf, Uid: -1, Gid: 1002},
 	}
 }
